@@ -136,6 +136,7 @@ def replayEv (s : St) (ev : String) : Except String St :=
     else if how == "recverr" then
       if s.srvLog.length != s.pos || s.link != .garbage then .error "model: no receive error due" else (stepE .drvResp).map (·.1)
     else if how == "opclosed" then (stepE .drvOpClosed).map (·.1)
+    else if how == "miscclosed" then (stepE .drvMiscClosed).map (·.1)
     else .error "bad drvend"
   | ["drvresult", r] =>
     if (r == "ok" && s.drv == .endedOk) || (r == "err" && s.drv == .endedErr) then .ok s
@@ -178,6 +179,17 @@ def replay (line : String) : String := Id.run do
 def handleConn (cmd arg : String) : Option String :=
   match cmd with
   | "conn.trace" => some (replay arg)
+  | "id.next" =>
+    match arg.splitOn " " with
+    | [n, last, used] =>
+      match n.toNat?, last.toNat?, parseNatList used with
+      | some n, some l, some u =>
+        some (match nextId n l u with
+          | .ok id => s!"ok {id}"
+          | .panic => "panic"
+          | .diverge => "diverge")
+      | _, _, _ => some "bad-request"
+    | _ => some "bad-request"
   | _ => none
 
 end Ldap3V.Driver
